@@ -22,9 +22,15 @@
                  when every step keeps it, a row when it lies in every window given for its list,
                  every container bound holds), and the store is unchanged
       known 1  : two or more steps carry fc.range (KNOWN_FINDINGS.txt; Props C07_chain_partial /
-                 C07_chain_full_statement_refuted) *)
+                 C07_chain_full_statement_refuted)
+
+    CParse: the expression parser alone (node.ParsePathExpression(s).String()), on expression trees
+    of any shape (runs of 1..12 plain segments before / between / inside groups) and raw strings.
+      corr     : observed = PathExpr.parse_path_expr s = PathMem.parse_mem s
+      spec_obs : with a tree (whose print is s): the observed paths and [denote] of the tree are
+                 the same set; without: accepted iff [balanced] *)
 From Coq Require Import ZArith List Bool Strings.Byte Strings.String.
-From YV Require Import Base.Verdict Val.Model Tree.Schema Tree.Editor Tree.Merge Tree.PathExpr Tree.Params Tree.Project Tree.Reading Tree.Chain Tree.ProjectChain.
+From YV Require Import Base.Verdict Val.Model Tree.Schema Tree.Editor Tree.Merge Tree.PathExpr Tree.Params Tree.Project Tree.Reading Tree.Chain Tree.ProjectChain Tree.PathMem.
 Import ListNotations.
 Open Scope Z_scope.
 
@@ -40,13 +46,17 @@ Inductive target :=
 | TCont (kids : list snode) (data : content)
 | TList (l : snode) (rows : list dnode).
 
+(** what node.ParsePathExpression(s) was observed to do: the paths String() prints, or the error *)
+Inductive pobs := PObsPaths (ps : paths) | PObsErr (e : oerr) | PObsPanic.
+
 Inductive case :=
 | CRead (kids : list snode) (data : content) (q : query)
         (asts : list (list byte * pexpr))     (* parameter name -> tree of its path expression *)
         (unchanged : bool) (o : obs)
 | CChain (t : target) (steps : list query)
          (asts : list (list (list byte * pexpr)))   (* per step: parameter name -> expression tree *)
-         (unchanged : bool) (o : obs).
+         (unchanged : bool) (o : obs)
+| CParse (ast : option pexpr) (s : list byte) (o : pobs).
 
 Definition res_eqb (m : pres content) (o : obs) : bool :=
   match m, o with
@@ -60,6 +70,22 @@ Definition res_eqb (m : pres content) (o : obs) : bool :=
   end.
 
 Definition is_error (o : obs) : bool := match o with ObsErr _ => true | _ => false end.
+
+Fixpoint paths_eqb (a b : paths) : bool :=
+  match a, b with
+  | [], [] => true
+  | x :: a', y :: b' => ident_list_eqb x y && paths_eqb a' b'
+  | _, _ => false
+  end.
+Definition parse_eqb (m : pres paths) (o : pobs) : bool :=
+  match m, o with
+  | POk ps, PObsPaths ps' => paths_eqb ps ps'
+  | PErr PBadRequest, PObsErr OBadRequest => true
+  | PErr PPanic, PObsPanic => true
+  | _, _ => false
+  end.
+(** every path of a is a path of b *)
+Definition paths_subset (a b : paths) : bool := forallb (fun p => existsb (ident_list_eqb p) b) a.
 
 Definition classify (c : case) : verdict :=
   match c with
@@ -114,4 +140,27 @@ Definition classify (c : case) : verdict :=
                    | _ => None
                    end in
       classify_gen corr spec known
+  | CParse ast s o =>
+      (* the list-level parser AND the slice-level one (Tree/PathMem.v: append into shared spare
+         capacity modelled under Go's growth policy) *)
+      let corr := parse_eqb (parse_path_expr s) o && parse_eqb (parse_mem s) o in
+      let spec :=
+        match ast with
+        | Some e =>
+            (* the expression names exactly the paths its tree denotes (as a set) *)
+            if bytes_eqb (print_top e) s && wf_exprb e then
+              match o with
+              | PObsPaths ps => paths_subset ps (denote e) && paths_subset (denote e) ps
+              | _ => false
+              end
+            else false
+        | None =>
+            (* no tree: accepted iff the parentheses are balanced *)
+            match o with
+            | PObsPaths _ => balanced s 0
+            | PObsErr _ => negb (balanced s 0)
+            | PObsPanic => false
+            end
+        end in
+      classify_gen corr spec None
   end.
